@@ -6,6 +6,7 @@ import (
 	"crypto/hmac"
 	"crypto/sha512"
 	"encoding/binary"
+	"github.com/gcash/bchd/chaincfg"
 	"math/big"
 
 	"github.com/gcash/bchd/bchec"
@@ -19,6 +20,7 @@ func init() {
 	}
 	ops["Wif"] = opWif
 	ops["WifDecode"] = opWifDecode
+	ops["WifMutate"] = opWifMutate
 }
 
 // ---- environment facts ---------------------------------------------------------------
@@ -332,9 +334,52 @@ func opHD(h *HState, a Event) Event {
 
 // ---- WIF ------------------------------------------------------------------------------------
 
+// wifNet: the configured net, or a copy of it with another private-key identifier byte ("netid" >= 0 in the call)
+func wifNet(a Event) *chaincfg.Params {
+	net := nets[gInt(a, "net")-1]
+	if v, ok := a["idbyte"]; ok {
+		cp := *net
+		cp.PrivateKeyID = byte(gInt(Event{"x": v}, "x"))
+		return &cp
+	}
+	return net
+}
+
+// opWifMutate: a WIF value is a plain struct with exported fields; after the flag is changed the string and the
+// public key serialisation follow the new flag (nothing may be remembered from an earlier String / DecodeWIF).
+func opWifMutate(_ *HState, a Event) Event {
+	key := gBytes(a, "key")
+	net := wifNet(a)
+	comp := gBool(a, "compressed")
+	e := with(a, "netid", int(net.PrivateKeyID), "str1", []int{}, "str2", []int{}, "pub2", []int{})
+	p, msg := guard(func() {
+		sk, _ := bchec.PrivKeyFromBytes(bchec.S256(), key)
+		w, err := bchutil.NewWIF(sk, net, comp)
+		if err != nil {
+			e["panic"] = "NewWIF: " + err.Error()
+			return
+		}
+		s1 := w.String()
+		if gName(a, "via") == "decode" {
+			if w, err = bchutil.DecodeWIF(s1); err != nil {
+				e["panic"] = "DecodeWIF of an encoded string: " + err.Error()
+				return
+			}
+		}
+		e["str1"] = str(s1)
+		w.CompressPubKey = !comp
+		e["str2"] = str(w.String())
+		e["pub2"] = ints(w.SerializePubKey())
+	})
+	b := ecBase(key)
+	e["env"] = []interface{}{envSha256d(append([]byte{net.PrivateKeyID}, key...)), envSha256d(append(append([]byte{net.PrivateKeyID}, key...), 1)),
+		envEcBase(key), envFact("ec-uncompress", b, ecUncompress(b))}
+	return panicField(e, p, msg)
+}
+
 func opWif(_ *HState, a Event) Event {
 	key := gBytes(a, "key")
-	net := nets[gInt(a, "net")-1]
+	net := wifNet(a)
 	comp := gBool(a, "compressed")
 	e := with(a, "netid", int(net.PrivateKeyID), "str", []int{}, "pub", []int{}, "fornet", []bool{})
 	p, msg := guard(func() {
